@@ -53,5 +53,12 @@ for root in roots:
             for t2 in (st.targets if isinstance(st, ast.Assign) else [st.target] if isinstance(st, ast.AnnAssign) else []):
                 if isinstance(t2, ast.Name):
                     names.add("%s.%s" % (mod, t2.id))
-json.dump({"roots": roots, "functions": sorted(funcs), "names": sorted(names), "arity": dict(sorted(arity.items())), "classes": sorted(classes)}, open(os.path.join(V, "sa", "known_functions.json"), "w"), indent=0)
+# non-Python sources shipped by the plug-ins (templates, C, C++): file list and the names each defines
+sys.path.insert(0, V)
+from sa.newstruct import nonpy_definitions
+nonpy = {}
+for root in roots:
+    for rel, names_ in nonpy_definitions(root).items():
+        nonpy.setdefault(rel, set()).update(names_)
+json.dump({"nonpy": {k: sorted(v) for k, v in sorted(nonpy.items())}, "roots": roots, "functions": sorted(funcs), "names": sorted(names), "arity": dict(sorted(arity.items())), "classes": sorted(classes)}, open(os.path.join(V, "sa", "known_functions.json"), "w"), indent=0)
 print("known: %d functions, %d names" % (len(funcs), len(names)))
